@@ -28,9 +28,13 @@ func checkTamperMatrix(f lib.Flags, res *lib.Result) {
 			g := lib.NewChainGen(r, newState, opt)
 			chk, _ := lib.NewNode(net, newState)
 			var blocks []*lib.Bundle
-			sierra := false
-			for i := 0; i < 40 && (len(blocks) < 3 || !sierra); i++ {
-				b, err := g.Next(richSpec(g, 4))
+			sierra, plain := false, false
+			for i := 0; i < 60 && (len(blocks) < 3 || !sierra || !plain); i++ {
+				spec := richSpec(g, 4)
+				if i%3 == 2 {
+					spec = noDeclareSpec(g) // a block that declares no class (kind "undeclared-class-entry")
+				}
+				b, err := g.Next(spec)
 				if err != nil {
 					res.Fatalf("tamper matrix: generator failed for version %s: %v", v, err)
 					return
@@ -39,6 +43,9 @@ func checkTamperMatrix(f lib.Flags, res *lib.Result) {
 					if _, ok := cl.(*core.SierraClass); ok {
 						sierra = true
 					}
+				}
+				if len(b.Classes) == 0 && len(b.SU.StateDiff.DeclaredV0Classes)+len(b.SU.StateDiff.DeclaredV1Classes) == 0 {
+					plain = true
 				}
 				blocks = append(blocks, b)
 			}
